@@ -1840,6 +1840,10 @@ fn static_damage(r: &mut Rng, g: &mut Generated, profile: Profile) -> Option<&'s
                 (" 0b; ", Some("garbage_prefixed_int"), 1),
                 (" 1e ", Some("garbage_exponent_float"), 1),
                 (" 2.5e+ ", Some("garbage_exponent_float"), 1),
+                // version headers without a major number
+                (" OPENQASM .1; ", Some("garbage_version"), 1),
+                (" OPENQASM ; ", Some("garbage_version"), 1),
+                (" OPENQASM 3.; ", Some("garbage_version"), 1),
                 // an exponent marker without digits after a base prefix
                 (" 0b1e ", Some("garbage_exponent_float"), 1),
                 (" 0o17E+ ", Some("garbage_exponent_float"), 1),
